@@ -358,6 +358,8 @@ class FnTranslator:
                 return 'SStore %d %s (EBin %s (EIndex (EVar %d) %s) %s)' % (x, i, BINOPS[type(s.op)], x, i, self.expr(s.value))
             self.fail(s, 'augmented assignment target')
         if isinstance(s, ast.If):
+            if self.is_int_promotion(s):
+                return 'SSkip'      # `if x.dtype.kind in 'iub': x = x.astype(float)`: the IR's arrays are float64 / complex128, the test is False
             return 'SIf %s\n(%s)\n(%s)' % (self.expr(s.test), self.block(s.body), self.block(s.orelse))
         if isinstance(s, ast.For):
             if s.orelse or not isinstance(s.target, ast.Name):
@@ -389,6 +391,27 @@ class FnTranslator:
                 self.fail(s, 'assert message')
             return 'SAssert %s' % self.expr(s.test)
         self.fail(s, 'statement')
+
+    def is_int_promotion(self, s):
+        """exactly `if <x>.dtype.kind in '<subset of iub>': <x> = <x>.astype(float)` for a local array <x> (no else):
+        promotion of integer / boolean arrays, the identity on the value domain of the IR"""
+        t = s.test
+        if s.orelse or len(s.body) != 1 or not isinstance(t, ast.Compare) or len(t.ops) != 1 or not isinstance(t.ops[0], ast.In):
+            return False
+        l, r = t.left, t.comparators[0]
+        if not (isinstance(r, ast.Constant) and isinstance(r.value, str) and r.value and set(r.value) <= set('iub')):
+            return False
+        if not (isinstance(l, ast.Attribute) and l.attr == 'kind' and isinstance(l.value, ast.Attribute) and l.value.attr == 'dtype'
+                and isinstance(l.value.value, ast.Name)):
+            return False
+        x = l.value.value.id
+        if self.lookup(x) is None or 'float' in self.assigned:
+            return False
+        b = s.body[0]
+        return (isinstance(b, ast.Assign) and len(b.targets) == 1 and isinstance(b.targets[0], ast.Name) and b.targets[0].id == x
+                and isinstance(b.value, ast.Call) and isinstance(b.value.func, ast.Attribute) and b.value.func.attr == 'astype'
+                and isinstance(b.value.func.value, ast.Name) and b.value.func.value.id == x and not b.value.keywords
+                and len(b.value.args) == 1 and isinstance(b.value.args[0], ast.Name) and b.value.args[0].id == 'float')
 
     def crit_call(self, dst, call):
         kws = {k.arg: k.value for k in call.keywords}
@@ -672,6 +695,8 @@ def translate(name, source=None):
 SELFTEST_OK = """
 import numpy
 def f(r, n=None):
+    if r.dtype.kind in 'iub':
+        r = r.astype(float)
     A = numpy.zeros(n, dtype=complex)
     T = r[1:]
     for k in range(0, n):
@@ -704,6 +729,10 @@ SELFTEST_BAD = [            # (what, old, new): each edit must make the translat
     ('imaginary literal', "* 2.", "* 2j"),
     ('unknown exception class', "raise ValueError('x')", "raise RuntimeError('x')"),
     ('call inside a message', "raise ValueError('x')", "raise ValueError(str(A.resize(3)))"),
+    ('dtype test that floats can satisfy', "in 'iub'", "in 'iubf'"),
+    ('promotion to another type', "r.astype(float)", "r.astype(int)"),
+    ('promotion with an else branch', "        r = r.astype(float)\n", "        r = r.astype(float)\n    else:\n        r = r * 2\n"),
+    ('promotion assigning another name', "        r = r.astype(float)", "        n = r.astype(float)"),
 ]
 
 
